@@ -754,7 +754,9 @@ def _normalise_order(db, rep):
     Function inlines a body), and a quantifier whose enumerated declaration was split has the tuple pattern of its own declaration normalised."""
     r9 = rep.rule('r9', 'NORMALISE-ORDER: Normalize dispatches on a node before visiting its children; after an enumerated declaration is split the remaining declaration is normalised if it is a tuple pattern', 2)
     N = NS + 'Normalizer'
-    f = db.fn(N + '::Normalize', required=False)
+    cands = [g for g in db.by_name.get(N + '::Normalize', []) if g.body >= 0 and not g.rec.get('dependent')]
+    # the overload that dispatches (the public entry may only initialise and forward to it)
+    f = next((g for g in cands if any((n.get('cs') or '') == N + '::Quantifier' for n in g.calls())), cands[0] if cands else None)
     q = db.fn(N + '::Quantifier', required=False)
     if f is None or q is None:
         r9.broken('anchor vanished: Normalizer::Normalize / Quantifier')
@@ -994,7 +996,7 @@ def normalise_meaning_rule(db, r10):
     except OutOfFragment as e:
         r10.broken('tree harness: %s' % e)
         return
-    nz = db.fn(NS + 'Normalizer::Normalize', required=False)
+    nz = next((g for g in db.by_name.get(NS + 'Normalizer::Normalize', []) if g.body >= 0 and not g.rec.get('dependent')), None)
     where = '%s:%d' % (nz.file, nz.line) if nz is not None else ''
     Gm = {'C1': frozenset({1, 2, 3}), 'S1': frozenset({(1, 2), (3, 4)}), 'S2': frozenset({(1, (2, 1)), (2, (2, 3))}), 'S3': frozenset({(1, 2), (1, 3), (2, 2)})}
     for name, tree, funcs in _normalise_cases():
